@@ -82,10 +82,14 @@ def run(v, O):
     expr = {'lt': '{?} < B', 'le': '{?} <= B', 'gt': '{?} > B', 'ge': '{?} >= B', 'eq': '{?} == B', 'ne': '{?} != B',
             'range': 'L < {?} && {?} < B', 'or': '{?} < L || {?} > B', 'rev': 'B > {?}'}[v.op]
     lo = v.lo if hasattr(v, 'lo') else None
+    if getattr(v, 'refbound', False):
+        expr = expr.replace('B', '{?lim}')
     expr = expr.replace('B', bt)
     if lo is not None:
         expr = expr.replace('L', f'{O.lit(lo)}' + (f' {v.unit}' if v.unit else ''))
     lines = [f'w {v.dtype} = {O.lit(v.v0)}' + (f' {v.unit}' if v.unit else ''), f'  !condition ("{expr}")']
+    if getattr(v, 'refbound', False):
+        lines = [f'lim {v.dtype} = {bt}'] + lines
     final = v.v0
     for i in range(v.nmods):
         final = getattr(v, f'm{i}')
@@ -138,7 +142,7 @@ def scenarios(tier, seed):
             for listform in (False, True):
                 for nmods in (0, 1, 2):
                     for dtype in ('float', 'int'):
-                        if dtype == 'int' and (unit is not None):
+                        if dtype == 'int' and unit not in (None, 'm'):
                             continue
                         if tier == 'quick' and (n % 3 == 1):
                             n += 1
@@ -164,6 +168,10 @@ def scenarios(tier, seed):
                     inp.update({f'm{i}': kind for i in range(nmods)})
                     S.append(Scenario(f'condition/{dtype}/{unit}/{bunit}/{op}/{nmods}', COND_SRC, inp, consts={'unit': unit, 'bunit': bunit, 'op': op, 'nmods': nmods, 'dtype': dtype},
                                       preamble=PRE, what=f'{dtype} node in {unit} with condition {op} (bound in {bunit or unit})', samples=2))
+    for unit, bunit in (('m', 'cm'), ('J', 'erg'), ('m', None)):
+        for op in ('lt', 'ge', 'eq', 'gt'):
+            S.append(Scenario(f'condition-ref/{unit}/{bunit}/{op}', COND_SRC, {'v0': 'real', 'b': 'real'}, consts={'unit': unit, 'bunit': bunit, 'op': op, 'nmods': 0, 'dtype': 'float', 'refbound': True},
+                              preamble=PRE, what=f'condition {op} against another node stored in {bunit or unit}', samples=2))
     for form in ('both', 'min', 'max', 'exact', 'any'):
         for k in (1, 2, 4):
             S.append(Scenario(f'dimension/{form}/{k}', DIM_SRC, {'lo': 'int', 'hi': 'int'}, ['v.lo >= 0', 'v.hi >= 0', 'v.lo <= 9', 'v.hi <= 9'], consts={'form': form, 'k': k, 'k2': 0, 'lo2': 0, 'hi2': 0},
@@ -178,12 +186,18 @@ def scenarios(tier, seed):
                 ('format matches', "a str = 'Ferdinant'\n  !format '^[a-zA-Z]+$'", True), ('format fails', "a str = 'Ferdinant2'\n  !format '^[a-zA-Z]+$'", False),
                 ('format fails after modification', "a str = 'abc'\n  !format '^[a-z]+$'\na = 'ABC'", False), ('format ok after modification', "a str = 'abc'\n  !format '^[a-z]+$'\na = 'xyz'", True),
                 ('format digits', "a str = '2023-01-02'\n  !format '^[0-9]{4}-[0-9]{2}-[0-9]{2}$'", True), ('format digits fail', "a str = '2023-1-02'\n  !format '^[0-9]{4}-[0-9]{2}-[0-9]{2}$'", False),
+                ('value of lower rank than declared', 'c int[2,3:] = [7,8]', False), ('scalar given to an array node', 'c int[2] = 5', False),
+                ('2-D node modified with a 1-D list', 'c int[2,2] = [[1,2],[3,4]]\nc = [5,6]', False),
+                ('multi-line value against an end-anchored format', 'a str = """\nabc\n123\n"""\n  !format "^[a-z]+$"', False),
+                ('multi-line value, second line breaks the format', 'a str = "abc"\n  !format "^[a-z]+$"\na = """\nabc\nDROP TABLE\n"""', False),
+                ('int node with unit, option in another prefix', 'w int = 2 m\n  = 200 cm\n  = 300 cm', True), ('int node with unit, value equals only the bare number of an option', 'w int = 200 m\n  = 200 cm\n  = 300 cm', False),
+                ('int !options list in another unit', 'w int = 3 m\n  !options [200,300] cm', True), ('int !options list in another unit, no match', 'w int = 300 m\n  !options [200,300] cm', False),
                 ('options on a bool refused', "a bool = true\n  = true", False), ('format on an int refused', "a int = 3\n  !format '3'", False),
                 ('two constraints both hold', "a float = 2 m\n  = 2 m\n  = 3 m\n  !condition ('{?} < 2.5 m')", True), ('two constraints, condition fails', "a float = 3 m\n  = 2 m\n  = 3 m\n  !condition ('{?} < 2.5 m')", False),
                 ('two constraints, option fails', "a float = 1 m\n  = 2 m\n  = 3 m\n  !condition ('{?} < 2.5 m')", False), ('declared node never set', "a float m\n  = 2 m", False),
                 ('bool condition holds', "a float = 1\n  !condition ('{?} > 0 && {?} < 2')", True), ('constraint checked on nested node', "g\n  a int = 5\n    = 4\n    = 6", False)]
     S.append(Scenario('strings-and-combinations', STROPT_SRC, {}, consts={'cases': strcases, 'messages': ["doesn't match with any option", 'does not match the format', 'does not fullfil a condition',
-                                                                                                       'does not support options', 'Format can be set only', 'Node value must be defined']},
+                                                                                                       'does not support options', 'Format can be set only', 'Node value must be defined', 'invalid dimension', 'index out of range', 'Array value set to scalar', 'Could not convert', 'inhomogeneous']},
                       preamble=PRE, what='string options, formats and combinations (concrete)', samples=1))
     S.append(Scenario('canary/options', OPT_SRC.replace("O.or_(*[tol_eq(O, final, c) for c in conv])", "O.or_(*[tol_eq(O, final, c + 1) for c in conv])"), {'v0': 'real', 'o0': 'real'},
                       consts={'unit': 'm', 'ounits': ['m'], 'listform': False, 'nmods': 0, 'dtype': 'float'}, preamble=PRE, canary=True))
